@@ -107,6 +107,26 @@ class MainPhysics(MainConfig):
                 ('e1', {'C04'}, Implies(v('t_damp') > 0, v('e1') == 2 / (v('fs') * v('t_damp') * v('steps'))))]
 
 
+class MainGrid(MainConfig):
+    """third slice: the bounds of the phase-space grid.  Both axes span PhaseSpaceSize (with GridSize points each: equal cell sizes --
+    the linear RF kick is tan(angle) * (distance from the centre IN CELLS) applied as a shift IN CELLS of the other axis, which is
+    the rotation of C03 / the RF focusing of C05 only if a cell is as wide as it is high), centred at minus the requested shift."""
+    tags = {'C03', 'C05'}
+    slice_targets = ['qmin', 'qmax', 'pmin', 'pmax', 'ps_bins']
+    slice_stop = 'startdistfile'
+    ghosts = {}
+    loops = {}
+    domain_after = {}
+
+    def ensures(self, cx):
+        v, o = cx.v, self.o
+        size = o(cx, 'pq_size')
+        N1 = z3.ToReal(v('ps_bins')) - 1
+        return [('both_axes_span_PhaseSpaceSize', {'C03', 'C05'}, And(v('qmax') - v('qmin') == size, v('pmax') - v('pmin') == size)),
+                ('centred_at_minus_the_shift', {'C03', 'C05'}, And((v('qmax') + v('qmin')) * N1 == -2 * o(cx, 'meshshiftx') * size,
+                                                                  (v('pmax') + v('pmin')) * N1 == -2 * o(cx, 'meshshifty') * size))]
+
+
 class MainTrackingFile(Contract):
     """main(): reading the particle tracking file (C15/C17).  For every content of the file — any number of values, malformed
     text, coordinates far outside the grid — each stored particle starts on the grid (0 <= x <= nx-1, 0 <= y <= ny-1): the
